@@ -7,9 +7,9 @@ using namespace fw;
 using namespace lib;
 
 enum { OP_CREATE, OP_CREATE_FAIL, OP_DESTROY, OP_DESTROY_DEAD, OP_USE, OP_PROBE_DEAD, OP_PRESET, OP_DECODE_INSUFF,
-       OP_DECODE_BADHDR, OP_BADARGS, OP_META, OP_ENCODE_THREAD, OP_RECON, OP_XDESTROY, OP_SIZE_LIE, OP_MT_FIRST, OP_ZPAR, OP_AVAIL, OP_LONG_LEN, OP_NOPS };
+       OP_DECODE_BADHDR, OP_BADARGS, OP_META, OP_ENCODE_THREAD, OP_RECON, OP_XDESTROY, OP_SIZE_LIE, OP_MT_FIRST, OP_ZPAR, OP_AVAIL, OP_LONG_LEN, OP_HUGE_LEN, OP_NOPS };
 static const char *OPN[] = {"create", "create_fail", "destroy", "destroy_dead", "use", "probe_dead", "preset", "decode_insuff",
-                            "decode_badhdr", "badargs", "meta", "encode_thread", "recon", "xdestroy", "size_lie", "mt_first", "zero_parity", "backend_available", "long_fragment_len"};
+                            "decode_badhdr", "badargs", "meta", "encode_thread", "recon", "xdestroy", "size_lie", "mt_first", "zero_parity", "backend_available", "long_fragment_len", "huge_data_len"};
 enum { MODE_C14 = 14, MODE_C15 = 15, MODE_C16 = 16 };
 static const int NSLOTS = 4;
 static bool g_explicit_lsan = true;     // the libFuzzer target switches to libFuzzer's own leak detection
@@ -437,6 +437,30 @@ static Result run_history(const Case &c, int mode) {
             w.failing_call = true;
             break;
         }
+        case OP_HUGE_LEN: {
+            // encode of an (honest, virtual-only) buffer of 4 GiB + 4 KiB through output variables that still hold the
+            // arrays of an earlier, not yet released encode. Whether the library encodes, truncates or refuses is not
+            // what is judged: the earlier result must stay intact and releasable exactly once, and nothing may leak
+            SlotState &s = w.slot[a % NSLOTS];
+            if (!s.live) break;
+            std::vector<uint8_t> d0 = data_for(s.g, 1 + (int)(b % 5));
+            char **ed = nullptr, **ep = nullptr; uint64_t fl = 0;
+            if (liberasurecode_encode(s.desc, (const char *)d0.data(), d0.size(), &ed, &ep, &fl) != 0) { fail_at(step, "encode failed"); break; }
+            char **ed0 = ed, **ep0 = ep; uint64_t fl0 = fl;
+            size_t huge = ((size_t)1 << 32) + 4096;
+            void *big = mmap(nullptr, huge, PROT_READ, MAP_PRIVATE | MAP_ANONYMOUS | MAP_NORESERVE, -1, 0);
+            if (big != MAP_FAILED) {
+                int rc = liberasurecode_encode(s.desc, (const char *)big, huge, &ed, &ep, &fl);
+                if (rc > 0) fail_at(step, "positive rc");
+                if (rc == 0) { if (ed == ed0 || ep == ep0) fail_at(step, "a successful encode returned the arrays of the previous one"); else liberasurecode_encode_cleanup(s.desc, ed, ep); }
+                munmap(big, huge);
+                w.failing_call = w.failing_call || rc < 0;
+            }
+            auto want = ref::serialize_stripe(s.g, d0.data(), d0.size(), running, false);
+            for (int i = 0; i < s.g.n() && r.ok; i++) { char *f = i < s.g.k ? ed0[i] : ep0[i - s.g.k]; if (fl0 != want[i].size() || memcmp(f, want[i].data(), fl0)) fail_at(step, "the earlier encode's fragments changed during an encode of another buffer"); }
+            if (liberasurecode_encode_cleanup(s.desc, ed0, ep0) != 0) fail_at(step, "encode_cleanup of the earlier result failed");
+            break;
+        }
         case OP_MT_FIRST: {
             // several threads make the FIRST calls on a freshly created descriptor at the same time (lazily built
             // per-instance state must not be built twice and lost); the end-of-history leak check is the oracle
@@ -707,9 +731,9 @@ static Case gen_history(int mode) {
     int len = (int)pick(1, maxlen);
     if (coin(2, 3)) len = (int)pick(1, std::min(maxlen, 25));
     std::vector<int> wts;
-    if (mode == MODE_C14) wts = {8, 2, 5, 2, 4, 2, 1, 0, 0, 0, 0, 0, 1, 2, 0, 0, 2, 2, 0};
-    else if (mode == MODE_C15) wts = {5, 1, 2, 1, 6, 0, 0, 1, 1, 1, 3, 3, 3, 0, 0, 1, 1, 1, 1};
-    else wts = {6, 2, 4, 2, 5, 2, 0, 3, 3, 3, 2, 1, 3, 1, 3, 2, 2, 2, 3};
+    if (mode == MODE_C14) wts = {8, 2, 5, 2, 4, 2, 1, 0, 0, 0, 0, 0, 1, 2, 0, 0, 2, 2, 0, 0};
+    else if (mode == MODE_C15) wts = {5, 1, 2, 1, 6, 0, 0, 1, 1, 1, 3, 3, 3, 0, 0, 1, 1, 1, 1, 0};
+    else wts = {6, 2, 4, 2, 5, 2, 0, 3, 3, 3, 2, 1, 3, 1, 3, 2, 2, 2, 3, 2};
     int tot = 0; for (int x : wts) tot += x;
     auto ops = *rc::gen::resize(len, rc::gen::container<std::vector<std::tuple<int, int, int>>>(
         rc::gen::tuple(rc::gen::resize(100, rc::gen::inRange(0, tot)), rc::gen::resize(100, rc::gen::inRange(0, 1 << 12)), rc::gen::resize(100, rc::gen::inRange(0, 1 << 12)))));
@@ -795,6 +819,8 @@ int main(int argc, char **argv) {
     Harness h;
     h.prop = "C14";
     h.mode("c14", [] { rc_property("C14 registry model", [] { return gen_history(MODE_C14); }, run_c14); }, run_c14);
+    h.mode("c14_noq", [] { rc_property("C14 registry histories (allocator re-uses freed blocks at once)", [] { return gen_history(MODE_C14); }, run_c14); }, run_c14);
+    h.mode("c16_noq", [] { rc_property("C16 histories (allocator re-uses freed blocks at once)", [] { return gen_history(MODE_C16); }, run_c16); }, run_c16);
     h.mode("c14_exhaustive", sweep_c14, run_c14);
     h.mode("c15", [] { rc_property("C15 purity", [] { return gen_history(MODE_C15); }, run_c15); }, run_c15);
     h.mode("c15_guard_sweep", sweep_c15_guard, run_c15_guard);
